@@ -142,6 +142,9 @@ type PersistentHybridIndex struct {
 
 	// State
 	closed bool
+
+	// Error of the final flush, set by the flush worker before it exits
+	finalFlushErr error
 }
 
 // Compile-time check to ensure PersistentHybridIndex implements HybridSearchIndex
@@ -743,7 +746,27 @@ func (s *PersistentHybridIndex) flushMemtable(mt *memtable) error {
 	}
 
 	// Write index to files
-	if err := idx.WriteTo(hybridGz, vectorGz, textGz, metadataGz); err != nil {
+	err = idx.WriteTo(hybridGz, vectorGz, textGz, metadataGz)
+
+	// Close gzip writers and files to ensure all data is flushed
+	// A failed close means the data did not reach the file
+	closers := []io.Closer{hybridGz, hybridFile}
+	if vectorFile != nil {
+		closers = append(closers, vectorGz, vectorFile)
+	}
+	if textFile != nil {
+		closers = append(closers, textGz, textFile)
+	}
+	if metadataFile != nil {
+		closers = append(closers, metadataGz, metadataFile)
+	}
+	for _, c := range closers {
+		if closeErr := c.Close(); closeErr != nil && err == nil {
+			err = closeErr
+		}
+	}
+
+	if err != nil {
 		// Clean up partial files on error
 		os.Remove(hybridPath)
 		if vectorFile != nil {
@@ -757,18 +780,6 @@ func (s *PersistentHybridIndex) flushMemtable(mt *memtable) error {
 		}
 		return fmt.Errorf("failed to write index: %w", err)
 	}
-
-	// Close gzip writers to ensure all data is flushed
-	if vectorGz != nil {
-		vectorGz.Close()
-	}
-	if textGz != nil {
-		textGz.Close()
-	}
-	if metadataGz != nil {
-		metadataGz.Close()
-	}
-	hybridGz.Close()
 
 	// Get file sizes
 	var totalSize int64
@@ -815,7 +826,7 @@ func (s *PersistentHybridIndex) flushWorker() {
 		case <-s.closeChan:
 			// Final flush before closing, including the active memtable
 			s.memtableQueue.rotateIfNotEmpty()
-			s.flushMemtables()
+			s.finalFlushErr = s.flushMemtables()
 			return
 		}
 	}
@@ -849,7 +860,7 @@ func (s *PersistentHybridIndex) compactionWorker() {
 // It performs a final flush before closing.
 //
 // Returns:
-//   - error: Error if close fails
+//   - error: Error if the final flush or close fails
 func (s *PersistentHybridIndex) Close() error {
 	s.mu.Lock()
 	if s.closed {
@@ -866,8 +877,15 @@ func (s *PersistentHybridIndex) Close() error {
 	s.wg.Wait()
 
 	// Close provider (releases lock)
-	if err := s.provider.close(); err != nil {
-		return fmt.Errorf("failed to close provider: %w", err)
+	closeErr := s.provider.close()
+
+	// A failed final flush means documents were not persisted
+	if s.finalFlushErr != nil {
+		return fmt.Errorf("final flush failed: %w", s.finalFlushErr)
+	}
+
+	if closeErr != nil {
+		return fmt.Errorf("failed to close provider: %w", closeErr)
 	}
 
 	return nil
